@@ -90,8 +90,12 @@ def sweep(rep, scoped_cases, monitors_for, budgets=None, light=True,
         out["hz"] = hz
         return out
 
+    def heavy(item):
+        c = item[1]
+        return c["alg"]["kind"].startswith("adv") or (
+            c.get("delay") and c["delay"].get("mode", "choice") == "choice")
     res, complete = engine.parallel_map(work, scoped_cases,
-                                        deadline=deadline)
+                                        deadline=deadline, heavy_first=heavy)
     if not complete:
         rep.cap("time cap reached: %d of %d static cases explored"
                 % (sum(1 for r in res if r is not None), len(res)))
